@@ -28,11 +28,14 @@ def sweep_alphabet(cfg: dict) -> list:
     for cmd in (0, 1, 2):
         for t in range(0, 61):
             evs.append(["line", [1, 3, cmd, 0, t, "v" if cmd != 2 else ""]])
+            if t % 7 == 2:
+                evs.append(["line", [1, 3, cmd, 1, t, "v" if cmd != 2 else ""]])
             evs.append(["line", [9, 3, cmd, 0, t, "v" if cmd != 2 else ""]])
     for t in range(0, 61):
         evs.append(["line", [2, 255, 0, 0, t, "2.0"]])
     for t in range(-1, 41):
         evs.append(["line", [1, 255, 3, 0, t, cfg["reply"] if t == R.I_VERSION else "0"]])
+        evs.append(["line", [1, 255, 3, 1, t, cfg["reply"] if t == R.I_VERSION else "0"]])
     for t in range(-1, 9):
         evs.append(["line", [1, 255, 4, 0, t, "x"]])
     return evs
@@ -49,6 +52,8 @@ def alphabet(cfg: dict) -> list:
         ["line", [9, 255, 3, 0, 6, ""]],
         ["line", [1, 255, 3, 0, 1, ""]],
         ["line", [1, 3, 2, 0, 2, ""]],
+        ["line", [1, 3, 2, 1, 2, ""]],
+        ["line", [1, 255, 3, 1, 6, ""]],
         ["line", [0, 255, 3, 0, 14, "Gateway startup complete."]],
         ["line", [0, 255, 3, 0, 9, "log"]],
         ["line", [1, 3, 1, 0, 2, "v"]],
